@@ -40,11 +40,34 @@ def loop_cases(tier):
                     if ok and n > 0:
                         for shape in ("i", "j", "acc"):
                             cases.append((shape, op, i0, s, b))
+    # derived induction variables (LoopIvElim.tla's universe): small values, both multiplier signs
+    for op in CMP:
+        for i0 in ([-22, 0, 17] if tier == "quick" else [-22, -5, 0, 3, 17]):
+            for s0 in ([1, 2, 5] if tier == "quick" else [1, 2, 3, 5]):
+                s = s0 if op in ("<", "<=") else -s0
+                for b in [-25, -3, 0, 9, 30]:
+                    i, n = i0, 0
+                    while CMP[op](i, b) and n <= 60:
+                        i += s
+                        n += 1
+                    if 0 < n <= 60:
+                        for shape in ("div3", "divneg2", "divstr"):
+                            cases.append((shape, op, i0, s, b))
     return cases
 
 
 def loop_program(case):
     shape, op, i0, s, b = case
+    if shape.startswith("div"):
+        # the guarded variable is used only by the guard and one derived variable dv = m * i + c
+        m, c = (3, 1) if shape == "div3" else (-2, 0) if shape == "divneg2" else (7, 0)
+        if shape == "divstr":   # dv unused: the accumulator is a string (the shape Semantics.tla caught)
+            body = f'function loop(i: int, acc: Str): Str = if i {op} ({b}) {{ let dv = (i * {m}) + {c}; Main.loop(i + ({s}), acc :: "x") }} else {{ acc }}'
+            text = f'class Main {{\n  {body}\n  function main(): unit = Process.println("[" :: Main.loop({i0}, "") :: "]")\n}}\n'
+        else:
+            body = f"function loop(i: int, acc: int): int = if i {op} ({b}) {{ let dv = (i * ({m})) + {c}; Main.loop(i + ({s}), acc + dv) }} else {{ acc }}"
+            text = f"class Main {{\n  {body}\n  function main(): unit = Process.println(Str.fromInt(Main.loop({i0}, 0)))\n}}\n"
+        return {"origin": f"loop:{shape}:{op}:{i0}:{s}:{b}", "entry": "Main", "sources": {"Main": text}}
     if shape == "i":      # result is the guarded induction variable itself
         body = f"function loop(i: int): int = if i {op} ({b}) {{ Main.loop(i + ({s})) }} else {{ i }}"
         call = f"Main.loop({i0})"
@@ -93,6 +116,8 @@ def run(tier):
     log(f"[c02] fold phase done at {time.time()-t0:.0f}s")
     lr = tlc("LoopRules", "LoopRulesMC.cfg", workers=8, timeout=900, tag="c02lr")
     tlc_must_pass(lr, "LoopRules.tla model checking")
+    iv = tlc("LoopIvElim", "LoopIvElimMC.cfg", workers=8, timeout=1500, tag="c02iv")
+    tlc_must_pass(iv, "LoopIvElim.tla model checking")
     lcases = loop_cases(tier)
     lrecs = pc.run_programs(d, "loops", [loop_program(c) for c in lcases], ["raw", 4, 31, "pass:loop"])
     fails += pc.judge_obs(PID, "ObsC02.cfg", lrecs, "c02loops", "counting loops (LoopRules universe at 32 bits)", stats, d)
@@ -115,7 +140,7 @@ def run(tier):
         "samples": [{"origin": r["origin"], "builds": sorted(r.get("builds", {}).keys())[:6],
                      "unopt_out": ((r.get("builds", {}).get("opt:0", {}) or {}).get("wasm", {}) or {}).get("out", [])[:4]} for r in recs[-2:]] + rows[:1],
         "configurations": [b if isinstance(b, str) else f"opt:{b}" for b in builds], "fold_cases": len(rows), "fold_table_states": mc.distinct,
-        "loop_rule_states": lr.distinct, "loop_cases_replayed": len(lrecs),
+        "loop_rule_states": lr.distinct, "iv_elimination_rule_states": iv.distinct, "loop_cases_replayed": len(lrecs),
         "census": cen, "trace_states_checked_by_tlc": v.generated + stats.get("tlc_states", 0),
     }
     write_evidence(PID, tier, "translation_validation", coverage,
